@@ -70,6 +70,10 @@ CHECKS = {
    text="Exhaustive enumeration of acknowledgement fates (delivered / held / late / cut per follower) x follower count x ack mode x interference (duplicate request, unlock, queued request, demotion) x value operation x grant path on real leader+follower clusters; SUCCED only with log write + quorum, otherwise error, hold removed, value restored, queue served.",
    note="Trusted: instrumenter+runtime+vnet hold/cut semantics; default schedule inside handlers.",
    technique="exhaustive fault-sequence enumeration on multi-node instances of the implementation"),
+ "C14": dict(level="exploration", design="4/C14",
+   text="Exhaustive nested-loop enumerations on the plain protocol package (encode/decode identity over boundary products for all 20 command/result types, README offsets, decode/encode identity on defined bytes under all single- and in-field two-byte variations, text parser under every chunking of its own output, text rendering of every result code) plus text-vs-binary LOCK/UNLOCK equivalence on a full node for key/id strings of every length.",
+   note="Trusted: the layout table of defined bytes (self-checked against Decode), per-field independence assumption, the independently computed key normalisation.",
+   technique="bounded exhaustive input enumeration (all field-boundary products, all byte variations, all chunkings) on the implementation"),
 }
 NA_DEFAULT = "check not built yet in this round (planned: see DESIGN.md section 4)"
 
